@@ -22,9 +22,9 @@ import numpy as np
 
 from . import core
 
-MECH = dict(MSkip="none", MLoadMissing="none", MLayerCond=True, MRestoreDual=True, MPolyAsHeld=True, MDynAlways=True, MTransformRebuilds=True, MMemoByPath=False)
+MECH = dict(MSkip="none", MLoadMissing="none", MLayerCond=True, MRestoreDual=True, MPolyAsHeld=True, MDynAlways=True, MTransformRebuilds=True, MBrowseRereads=True, MMemoByPath=False)
 PINNED = dict(MECH, MLoadMissing="default")
-INVARIANTS = ["TypeOK", "LoadSaveIdentity", "FileHoldsContent", "SavedMeshIsMeshOfItsTriangulation", "MeshRestoredEqualsRecomputed"]
+INVARIANTS = ["TypeOK", "LoadSaveIdentity", "FileHoldsContent", "SavedMeshIsMeshOfItsTriangulation", "MeshRestoredEqualsRecomputed", "BrowsedStepIsRecordedStep"]
 
 OPT_NAMES = ["solve_time", "skip_time", "dt_init", "dt_max", "adaptive", "adaptive_window", "max_solve_retries",
              "adaptive_time_step_multiplier", "output_file", "terminal_psi", "gpu", "sparse_solver",
@@ -227,14 +227,14 @@ def guarded(fn):
 _BASE = {}
 
 
-def base_solution(tdgl, tmp, nsteps=5, k=2, kind="barhole", probes=2, screening=False, nofile=False, smooth=0, pre="none"):
+def base_solution(tdgl, tmp, nsteps=5, k=2, kind="barhole", probes=2, screening=False, nofile=False, smooth=0, pre="none", dyn="none"):
     """A tiny real run (fixed step): nsteps steps, a frame every k steps; cached per process.
     nofile: run with output_file=None (the Solution returned by solve() is then not backed by a file)."""
-    key = (nsteps, k, kind, probes, screening, nofile, smooth, pre, tmp)
+    key = (nsteps, k, kind, probes, screening, nofile, smooth, pre, dyn, tmp)
     if key in _BASE and (nofile or os.path.exists(_BASE[key].path)):
         return _BASE[key]
     d = tempfile.mkdtemp(prefix="pbase", dir=tmp)
-    sol = tiny_run(tdgl, None if nofile else os.path.join(d, "base.h5"), nsteps, k, kind, probes, screening, smooth, pre)
+    sol = tiny_run(tdgl, None if nofile else os.path.join(d, "base.h5"), nsteps, k, kind, probes, screening, smooth, pre, dyn)
     _BASE[key] = sol
     return sol
 
@@ -524,7 +524,12 @@ def derived(I, sol, queries):
 RUNS = {1: (0, 100), 2: (3, 100), 3: (4, 2), 4: (5, 2)}      # nframes -> (steps, save_every)
 
 
-def tiny_run(tdgl, out, nsteps, k, kind, probes, screening, smooth=0, pre="none"):
+def eps_of_time(r, *, t):
+    """A time-dependent disorder parameter: the documented plain-function form eps(r, *, t)."""
+    return 1.0 - (0.2 + 4.0 * t) * float(np.exp(-((r[0] - 0.5) ** 2 + r[1] ** 2)))
+
+
+def tiny_run(tdgl, out, nsteps, k, kind, probes, screening, smooth=0, pre="none", dyn="none"):
     from . import devices
 
     dev = devices.make(tdgl, kind, mel=1.3, probes=probes, smooth=smooth)
@@ -534,8 +539,13 @@ def tiny_run(tdgl, out, nsteps, k, kind, probes, screening, smooth=0, pre="none"
     opts = tdgl.SolverOptions(solve_time=max(nsteps * dt - dt / 2, 0.0), dt_init=dt, dt_max=dt, adaptive=False, save_every=k,
                               output_file=out, progress_interval=10 ** 9, include_screening=screening, screening_tolerance=1e-2)
     cur = {"source": 1.0, "drain": -1.0} if kind in ("bar", "barhole") else None
+    # dyn: inputs that depend on time, so that every frame stores its own epsilon / applied vector potential
+    A = 0.2
+    if dyn in ("A", "both"):
+        A = tdgl.sources.ConstantField(0.2) * tdgl.sources.LinearRamp(tmin=0.0, tmax=0.25, initial=1.0, final=0.25)
+    eps = eps_of_time if dyn in ("eps", "both") else 1.0
     with (dev.translation(*SHIFT) if pre == "context" else contextlib.nullcontext()):
-        return tdgl.solve(dev, opts, applied_vector_potential=0.2, terminal_currents=cur)
+        return tdgl.solve(dev, opts, applied_vector_potential=A, terminal_currents=cur, disorder_epsilon=eps)
 
 
 @raising_is_an_observation("solution")
@@ -548,6 +558,7 @@ def solution_case(tdgl, args, tmp):
     dev = args.get("dev", "barhole")
     mode = shape["mode"]
     history = bool(args.get("history"))
+    dyn = shape.get("dyn", "none")
     pre = args.get("pre", "none")        # what happened to the meshed device before the run (environment choice)
     I = Interner()
     d = tempfile.mkdtemp(prefix="psol", dir=tmp)
@@ -560,7 +571,7 @@ def solution_case(tdgl, args, tmp):
         work = os.path.join(d, f"work{gen}.h5")
         if mode == "solved":
             # the file tdgl.solve writes under output_file is the saved object
-            orig = tiny_run(tdgl, target, nsteps, k, dev, probes, shape["screening"], smooth, pre)
+            orig = tiny_run(tdgl, target, nsteps, k, dev, probes, shape["screening"], smooth, pre, dyn)
             if os.path.abspath(orig.path) != os.path.abspath(target):
                 raise core.MachineryFailure(f"solve wrote to {orig.path}, not to the path of the history")
             with h5py.File(target, "r") as f:
@@ -569,14 +580,14 @@ def solution_case(tdgl, args, tmp):
         elif mode == "nofile":
             # the Solution solve() returns for output_file=None: it holds the last step and the dynamics, its file is gone
             orig = base_solution(tdgl, tmp, nsteps=nsteps, k=k, kind=dev, probes=probes, screening=shape["screening"], nofile=True,
-                                 smooth=smooth, pre=pre)
+                                 smooth=smooth, pre=pre, dyn=dyn)
             if orig.saved_on_disk:
                 raise core.MachineryFailure("solution of a run with output_file=None is backed by a file")
             n = int(orig.data_range[1] - orig.data_range[0] + 1)
             steps = list(range(int(orig.data_range[0]), int(orig.data_range[1]) + 1))
             frames = [0] * (n - 1) + [frame_id_obj(I, orig.tdgl_data)]        # only the step it holds can be known
         else:
-            base = base_solution(tdgl, tmp, nsteps=nsteps, k=k, kind=dev, probes=probes, screening=shape["screening"], smooth=smooth, pre=pre)
+            base = base_solution(tdgl, tmp, nsteps=nsteps, k=k, kind=dev, probes=probes, screening=shape["screening"], smooth=smooth, pre=pre, dyn=dyn)
             shutil.copy(base.path, work)
             with h5py.File(work, "r") as f:
                 steps = sorted(int(s) for s in f["data"])
@@ -634,6 +645,22 @@ def solution_case(tdgl, args, tmp):
         ev.append({"ev": "load", "ok": ok, "err": err,
                    "rec": {"frames": lframes, "dyn": ldyn, "times": ltimes, "closest": lclosest, "mesh": lmesh, "currents": lcur},
                    "eq": "T" if eqs and all(r is True or (isinstance(r, np.bool_) and bool(r)) for r in eqs) else ("F" if eqs else "none")})
+        # browsing the steps on ONE object: forwards, backwards, negative indices; every step shown is abstracted from the
+        # object and compared (by TLC) with the file content read independently at the save event
+        if ok:
+            try:
+                one = tdgl.Solution.from_hdf5(path)
+                n = len(fsteps)
+                ks = ([0, -1] if nofile else list(range(n)) + list(range(n - 1, -1, -1))) + [-j for j in range(1, n + 1)]
+                for kk in ks:
+                    try:
+                        one.solve_step = kk
+                        ev.append({"ev": "browse", "ok": True, "k": kk, "frame": frame_id_obj(I, one.tdgl_data)})
+                    except Exception as e:
+                        ev.append({"ev": "browse", "ok": False, "k": kk, "frame": 0, "err": f"{type(e).__name__}: {str(e)[:120]}"})
+                        break
+            except Exception as e:
+                ev.append({"ev": "browse", "ok": False, "k": 0, "frame": 0, "err": f"{type(e).__name__}: {str(e)[:120]}"})
         if gen == 1 and history:
             lo.delete_hdf5()
             ev.append({"ev": "remove", "ok": not os.path.exists(path)})
@@ -925,7 +952,9 @@ def validate(ctx, pid, traces, what, max_diag=6):
         e = tr["ev"][far - 1] if 0 < far <= len(tr["ev"]) else None
         clause = ",".join(violated) if violated else (
             "SavedMeshIsMeshOfItsTriangulation / MeshRestoredEqualsRecomputed (the object's mesh is not the mesh of its triangulation)"
-            if e is not None and e["ev"] == "made" else "LoadSaveIdentity (no matching action)")
+            if e is not None and e["ev"] == "made" else
+            "BrowsedStepIsRecordedStep (the step shown while browsing one Solution is not the step the file holds)"
+            if e is not None and e["ev"] == "browse" else "LoadSaveIdentity (no matching action)")
         detail = ""
         if e is not None and tr["kind"] == "options" and e["ev"] == "load":
             detail = "; loaded differs from saved in: " + ", ".join(
